@@ -165,6 +165,9 @@ pub fn run_scenario(sc: &Scenario) -> Judged {
                         break 'lines;
                     }
                 }
+                if history.len() > 1025 {
+                    j.probes.add("histories_longer_than_1024_plies", 1);
+                }
                 if history.len() > 101 {
                     for oc in &occs {
                         if oc.occ_recorded >= 2 {
@@ -329,7 +332,9 @@ pub fn gen_history(rng: &mut Rng, start: &Pos) -> Vec<RMove> {
     let mut moves: Vec<RMove> = vec![];
     // one history in eight is long (up to ~400 plies): repetitions whose earlier
     // occurrences lie far back in the game
-    let segments = if rng.chance(1, 8) { rng.range(10, 45) } else { rng.range(1, 5) };
+    // one history in eight is long (up to ~400 plies), one in sixty very long (beyond 1024
+    // plies: a game may last several thousand)
+    let segments = if rng.chance(1, 60) { rng.range(140, 260) } else if rng.chance(1, 8) { rng.range(10, 45) } else { rng.range(1, 5) };
     for _ in 0..segments {
         match rng.below(3) {
             0 => {
